@@ -634,7 +634,7 @@ def main():
         else: rec.guard(run_case, rec, inp)
         rec.write(args.out); return
     rng = rng_of(args.seed, 4)
-    t0 = time.process_time(); budget = 2 * 24 if args.tier == "quick" else 300
+    t0 = time.process_time(); budget = 240 if args.tier == "quick" else 300   # quick: the fixed number of rounds decides (a CPU budget made the count depend on the machine)
     allc = APPLICABLE + INAPPLICABLE + KNOWN_IFU + HOLDS
     # regression witness: DdtDdKDE with a line-of-sight draw
     rec.guard(run_case, rec, gen(rng, "los_global_sigma/GAUSSIAN", t="DdtDdKDE", N=5))
@@ -664,7 +664,7 @@ def main():
             if isinstance(c, tuple): c, more = c[0], dict(aniso_dist=c[1])
             rec.guard(run_draws, rec, gen(rng, c, N=4000, good_fit=True, mode="draws", prior=False, **more))
     # the matrix
-    rounds = 14 if args.tier == "quick" else 400   # until the time budget
+    rounds = 10 if args.tier == "quick" else 400   # thorough: until the time budget
     for r in range(rounds):
         for c in allc:
             ts = types_for(c)
